@@ -69,7 +69,8 @@ type verifNet struct {
 	seq int
 }
 
-// verifMockCLA is a scripted ConvergenceSender (and ConvergenceReceiver).
+// verifMockCLA is a scripted ConvergenceSender. It deliberately is NOT a ConvergenceReceiver (no
+// GetEndpointID method): Core.HasEndpoint treats every receiver's endpoint as a local one.
 type verifMockCLA struct {
 	net       *verifNet
 	name      string
@@ -106,7 +107,6 @@ func (m *verifMockCLA) Channel() chan cla.ConvergenceStatus { return m.ch }
 func (m *verifMockCLA) Address() string                     { return "verif://" + m.name }
 func (m *verifMockCLA) IsPermanent() bool                   { return m.permanent }
 func (m *verifMockCLA) GetPeerEndpointID() bpv7.EndpointID  { return m.peer }
-func (m *verifMockCLA) GetEndpointID() bpv7.EndpointID      { return m.peer }
 func (m *verifMockCLA) String() string                      { return "verif://" + m.name }
 
 func (m *verifMockCLA) setScript(answers ...bool) { m.mu.Lock(); m.script = answers; m.mu.Unlock() }
